@@ -39,9 +39,28 @@ def seed_from_env():
 _built = set()
 
 
+SCHED = os.path.join(VERIF, "sim-sched")
+
+
+def build_sched(variant="vrelease"):
+    key = ("sched", variant)
+    if key in _built:
+        return
+    t0 = time.time()
+    r = subprocess.run(["cargo", "build", "--offline", "--profile", variant, "-p", "sched"], cwd=SCHED, env=ENV,
+                       stdout=subprocess.PIPE, stderr=subprocess.STDOUT, text=True)
+    if r.returncode != 0:
+        sys.stderr.write(r.stdout[-6000:])
+        raise HarnessError("build failed for sched/%s" % variant)
+    log("[build] sched %s ok (%.1fs)" % (variant, time.time() - t0))
+    _built.add(key)
+
+
 def build(variant, pkgs=("seq", "buf")):
     """variant: vdebug | vrelease | nostd | xplat (the latter two are vrelease builds
     with other feature sets, in their own target dir)."""
+    if tuple(pkgs) == ("sched",):
+        return build_sched(variant)
     key = (variant, tuple(pkgs))
     if key in _built:
         return
@@ -73,6 +92,8 @@ def build(variant, pkgs=("seq", "buf")):
 
 
 def binpath(variant, name):
+    if name == "sched":
+        return os.path.join(TARGET, "sched", variant, "sched")
     if variant in ("vdebug", "vrelease"):
         return os.path.join(TARGET, variant, name)
     if variant == "nostd":
@@ -141,7 +162,7 @@ def run_worker(engine, variant, args, journal, timeout):
 HANG_PROPS = {
     ("seq", "std"): ["C01"], ("seq", "mut"): ["C01", "C04"], ("seq", "fault"): ["C01", "C13"],
     ("buf", "laws"): ["C09"], ("buf", "typed"): ["C10", "C09"], ("buf", "adapters"): ["C12", "C09"],
-    ("buf", "write"): ["C11", "C12"], ("buf", "byz"): [],
+    ("buf", "write"): ["C11", "C12"], ("buf", "byz"): [], ("sched", "sched"): ["C05"],
 }
 
 
@@ -167,8 +188,10 @@ def run_batch(engine, variant, seed, tag, profile, runs, steps, extra_args=(), l
         while a < b and guard < 6:
             guard += 1
             jpath = os.path.join(JOURNALS, "%s-%s-%s-%d-%d.jsonl" % (engine, variant, label or profile, tag, a))
-            args = ["batch", "--seed", str(seed), "--tag", str(tag), "--from", str(a), "--to", str(b),
-                    "--profile", profile, "--steps", str(steps)] + list(extra_args)
+            args = ["batch", "--seed", str(seed), "--tag", str(tag), "--from", str(a), "--to", str(b)]
+            if engine != "sched":
+                args += ["--profile", profile, "--steps", str(steps)]
+            args += list(extra_args)
             rc, out, err = run_worker(engine, variant, args, jpath, timeout)
             got_summary = False
             for j in out:
@@ -208,10 +231,10 @@ def run_batch(engine, variant, seed, tag, profile, runs, steps, extra_args=(), l
             rec = {"type": "violation", "engine": engine, "profile": profile, "variant": variant,
                    "run": run_idx, "seed": hdr.get("seed"), "cfg": hdr.get("cfg", {}), "ops": ops,
                    "drop_order": order or [],
-                   "violations": [{"props": crash_props(ops), "kind": "worker-crash:" + _sig_name(rc),
+                   "violations": [{"props": (["C05", "C02"] if engine == "sched" else crash_props(ops)), "kind": "worker-crash:" + _sig_name(rc),
                                    "detail": "worker process died with %s while executing the last journalled operation; stderr: %s" % (_sig_name(rc), err.strip()[-300:]),
                                    "step": max(0, len(ops) - 1)}]}
-            for k in ("prog", "plan"):
+            for k in ("prog", "plan", "regen"):
                 if k in hdr:
                     rec[k] = hdr[k]
             res_v.append(rec)
@@ -255,6 +278,14 @@ def write_json(path, obj):
 
 def replay_once(engine, variant, rec, scratch):
     """-> (kinds list, crashed bool, raw violations)"""
+    if engine == "miri":
+        from . import props as P
+        m = rec.get("miri", {})
+        rc, out, err = P.miri_run(m.get("args", []), m.get("seed", 0), m.get("rate", "0.1"))
+        cls = P.miri_classify(rc, out, err)
+        if cls is None:
+            return ([], False, [])
+        return ([cls[1]], False, [{"props": cls[0], "kind": cls[1], "detail": cls[2], "step": 0}])
     write_json(scratch, rec)
     try:
         r = subprocess.run([binpath(variant, engine), "replay", scratch], env=ENV, stdout=subprocess.PIPE,
@@ -439,7 +470,13 @@ def report_violation(prop, engine, variant, rec, viol, tier, do_min=True, list_k
     out["engine"] = engine
     out["violation"] = viol
     m = None
-    if do_min:
+    if engine == "miri":
+        # Miri exports no schedule: the replay is (program, seed, flags); confirm it in a fresh process
+        kinds, _, vs = replay_once("miri", variant, rec, None)
+        out["replay_confirmed_in_fresh_process"] = want in kinds
+    elif do_min and engine == "sched":
+        m = minimise_sched(variant, rec, want)
+    elif do_min:
         m = minimise(engine, variant, rec, want, list_key=list_key)
     if m is not None:
         m["property"] = prop
@@ -456,3 +493,127 @@ def report_violation(prop, engine, variant, rec, viol, tier, do_min=True, list_k
     out.pop("type", None)
     write_json(path, out)
     return path
+
+
+# ----------------------------------------------------------------------------- E-sched minimisation
+
+def _ddmin(items, test):
+    """Generic list reduction: returns a sub-list for which test(sublist) is still True."""
+    n = max(1, len(items) // 2)
+    while n >= 1 and items:
+        i = 0
+        changed = False
+        while i < len(items):
+            cand = items[:i] + items[i + n:]
+            if len(cand) < len(items) and test(cand):
+                items = cand
+                changed = True
+            else:
+                i += n
+        if n == 1:
+            if not changed:
+                break
+        else:
+            n = max(1, n // 2)
+    return items
+
+
+def minimise_sched(variant, rec, want_kind, budget_s=60, max_execs=1200):
+    """Schedule -> preemption directives (default: keep running the current task, else lowest
+    runnable id), then delete directives, per-task operations, tasks and options while the
+    same violation kind persists."""
+    os.makedirs(JOURNALS, exist_ok=True)
+    scratch = os.path.join(JOURNALS, "mins-%d.json" % os.getpid())
+    t0 = time.time()
+    execs = [0]
+
+    def fails(cand):
+        if time.time() - t0 > budget_s or execs[0] >= max_execs:
+            return False
+        execs[0] += 1
+        kinds, crashed, _ = replay_once("sched", variant, cand, scratch)
+        return want_kind in kinds
+
+    cur = copy.deepcopy(rec)
+    if "sched" not in cur or "prog" not in cur:
+        return None
+    if not fails(cur):
+        return None
+    before = {"decisions": len(cur["sched"].get("list", [])), "ops": sum(len(t.get("ops", [])) for t in cur["prog"].get("tasks", []))}
+    # 1. decisions -> directives
+    if "directives" in cur:
+        cand = copy.deepcopy(cur)
+        cand["sched"] = cur["directives"]
+        if fails(cand):
+            cur = cand
+    # 2. drop directives
+    if cur["sched"].get("mode") == "directives":
+        def t_dir(lst):
+            c = copy.deepcopy(cur)
+            c["sched"]["list"] = lst
+            return fails(c)
+        cur["sched"]["list"] = _ddmin(list(cur["sched"]["list"]), t_dir)
+    # 3. options
+    for key, val in (("second_wave", False), ("root_first", False)):
+        if cur["prog"].get(key) not in (val, None):
+            c = copy.deepcopy(cur)
+            c["prog"][key] = val
+            if fails(c):
+                cur = c
+    # 4. per-task ops, main ops
+    for ti in range(len(cur["prog"].get("tasks", []))):
+        def t_ops(lst, ti=ti):
+            c = copy.deepcopy(cur)
+            c["prog"]["tasks"][ti]["ops"] = lst
+            return fails(c)
+        cur["prog"]["tasks"][ti]["ops"] = _ddmin(list(cur["prog"]["tasks"][ti]["ops"]), t_ops)
+        def t_init(lst, ti=ti):
+            c = copy.deepcopy(cur)
+            c["prog"]["tasks"][ti]["init"] = lst
+            return fails(c)
+        cur["prog"]["tasks"][ti]["init"] = _ddmin(list(cur["prog"]["tasks"][ti].get("init", [])), t_init)
+    for key in ("main_ops", "wave_ops"):
+        def t_m(lst, key=key):
+            c = copy.deepcopy(cur)
+            c["prog"][key] = lst
+            return fails(c)
+        cur["prog"][key] = _ddmin(list(cur["prog"].get(key, [])), t_m)
+    # 5. whole tasks (from the end, so task numbering of the others is stable)
+    ti = len(cur["prog"].get("tasks", [])) - 1
+    while ti >= 0:
+        c = copy.deepcopy(cur)
+        del c["prog"]["tasks"][ti]
+        if c["prog"]["tasks"] and fails(c):
+            cur = c
+        ti -= 1
+    # 6. directives once more on the smaller program
+    if cur["sched"].get("mode") == "directives":
+        def t_dir2(lst):
+            c = copy.deepcopy(cur)
+            c["sched"]["list"] = lst
+            return fails(c)
+        cur["sched"]["list"] = _ddmin(list(cur["sched"]["list"]), t_dir2)
+    cur.pop("directives", None)
+    cur.pop("violations", None)
+    cur["minimiser"] = {"replays": execs[0], "seconds": round(time.time() - t0, 2), "before": before,
+                        "after": {"schedule_entries": len(cur["sched"].get("list", [])), "mode": cur["sched"].get("mode"),
+                                  "ops": sum(len(t.get("ops", [])) for t in cur["prog"].get("tasks", []))}}
+    try:
+        os.unlink(scratch)
+    except OSError:
+        pass
+    return cur
+
+
+def mix_py(*parts):
+    """Python twin of rt::mix (for seeds the driver derives itself)."""
+    M = (1 << 64) - 1
+    acc = 0x243F6A8885A308D3
+    for p in parts:
+        x = (acc ^ ((p * 0x9E3779B97F4A7C15) & M)) & M
+        x = (x + 0x9E3779B97F4A7C15) & M
+        z = x
+        z = ((z ^ (z >> 30)) * 0xBF58476D1CE4E5B9) & M
+        z = ((z ^ (z >> 27)) * 0x94D049BB133111EB) & M
+        acc = z ^ (z >> 31)
+    return acc
